@@ -104,6 +104,11 @@ def admissible(junk, title):
     return True, name
 
 
+PREFIXED = {"V": ["VERSION. 1.2 : x", "VERSION. 2.0 : x", "VERSx. 1.2 :", "VERS_NO. 3.0 : y", "WRAPPED. YES : z", "WRAPS. YES :", "WRAP2. NO : n", "DLMT. COMMA : d",
+                  "DLM_. TAB :", "DLMX. COMMA"],
+            "W": ["NULLS. 1.25 : n", "NULL_VALUE. 100.25 :", "NULL2. 0.25 : n", "NULLX. 101.25", "NULLS. 201.25 : q", "NULL_. -999.25 : n", "NULLS. -9999 :"]}
+
+
 def insert_junk(rng, secs, long_ok=True):
     """copy of the document with 1-3 junk lines; returns (secs', [(section index, body index)], kinds, n_unparsable)"""
     sites = [i for i, s in enumerate(secs) if s["kind"] in ("V", "W", "P", "X")]
@@ -112,6 +117,16 @@ def insert_junk(rng, secs, long_ok=True):
         s["body"] = list(s["body"])
     kinds = []
     bad = 0
+    vw = [i for i in sites if secs[i]["kind"] in ("V", "W")]
+    if vw and rng.random() < 0.12:
+        # a parsable line whose mnemonic only BEGINS with a steering name, with a value that would matter, in front of the genuine
+        # steering lines of ~V / ~W: it is an item of its own, it steers nothing
+        i = rng.choice(vw)
+        junk = rng.choice(PREFIXED[secs[i]["kind"]])
+        ok, name = admissible(junk, out[i]["title"])
+        if ok:
+            out[i]["body"].insert(0, (junk, "junk", None))
+            return out, ["steering-prefix"], 0 if name is not None else 1
     many = rng.random() < 0.04
     one_site = rng.choice(sites)
     for _ in range(rng.choice([1, 1, 1, 2, 3]) if not many else rng.randint(21, 30)):
@@ -195,6 +210,12 @@ def oracle(run, text, text_j, nos, per, case):
         m = re.match(r"Line (\d+) ", str(e))
         if not m or int(m.group(1)) not in nos:
             run.fail("error-names-other-line", case, {"message": str(e)[:200], "inserted": nos})
+        else:
+            # "naming that line": the message carries the offending line as it stands in the file (stripped), character by character
+            lines_j = text_j.replace("\r\n", "\n").split("\n")
+            n = int(m.group(1))
+            if n - 1 < len(lines_j) and lines_j[n - 1].strip() not in str(e):
+                run.fail("error-does-not-quote-the-line", case, {"message": str(e)[:300], "line": lines_j[n - 1].strip()[:300]})
         return True
     except Exception as e:
         run.fail("other-exception-without-flag", case, {"type": type(e).__name__, "message": str(e)[:200]})
